@@ -98,6 +98,18 @@ func Build(o Options) (string, *Report, error) {
 				return "", nil, err
 			}
 		}
+		// A library that calls TryLock / TryRLock can observe a mutex while another thread is inside its critical
+		// section. Acquisitions are the only scheduling points of the model, so such a moment is never a state the
+		// scheduler stops in - unless the code uses a Try method, in which case every successful acquisition is
+		// followed by a second point ("holding the lock"). Decided here, at build time, so that all executions of
+		// one worker have the same shape.
+		if usesTryLock(o) {
+			gen := filepath.Join(o.OutDir, "src", "vsync_holdpoints.go")
+			if err := os.WriteFile(gen, []byte("package vsync\n\nfunc init() { HoldPoints = true }\n"), 0o644); err != nil {
+				return "", nil, err
+			}
+			replace[filepath.Join(o.Repo, "zzverif", "vsync", "zz_holdpoints.go")] = gen
+		}
 	}
 	b, _ := json.MarshalIndent(map[string]interface{}{"Replace": replace}, "", " ")
 	path := filepath.Join(o.OutDir, "overlay.json")
@@ -105,6 +117,26 @@ func Build(o Options) (string, *Report, error) {
 		return "", nil, err
 	}
 	return path, rep, nil
+}
+
+// usesTryLock reports whether any non-test source file of the packages calls a Try method of a mutex.
+func usesTryLock(o Options) bool {
+	for _, pkg := range o.Packages {
+		files, _ := os.ReadDir(filepath.Join(o.Repo, pkg))
+		for _, f := range files {
+			if f.IsDir() || !strings.HasSuffix(f.Name(), ".go") || strings.HasSuffix(f.Name(), "_test.go") {
+				continue
+			}
+			b, err := os.ReadFile(filepath.Join(o.Repo, pkg, f.Name()))
+			if err != nil {
+				continue
+			}
+			if strings.Contains(string(b), ".TryLock(") || strings.Contains(string(b), ".TryRLock(") {
+				return true
+			}
+		}
+	}
+	return false
 }
 
 func rewritePackage(dir string, o Options, replace map[string]string, rep *Report) error {
